@@ -492,6 +492,13 @@ def extract_encoder(repo: Repo, rel="cell.py", qual="Cell._to_buffer") -> Encode
             if isinstance(v, int) and not isinstance(v, bool) and v == HEADER_SIZE:
                 enc.length_var = s.targets[0].id
                 enc.base_length = v
+            # ``length = 12 + len(value)``: the payload is counted by construction
+            if isinstance(s.value, ast.BinOp) and isinstance(s.value.op, ast.Add):
+                for a, b in ((s.value.left, s.value.right), (s.value.right, s.value.left)):
+                    if try_const(a, env) == HEADER_SIZE and isinstance(b, ast.Call) and call_name(b) == "len" and len(b.args) == 1 and isinstance(b.args[0], ast.Name):
+                        enc.length_var = s.targets[0].id
+                        enc.base_length = HEADER_SIZE
+                        enc.header["__length_counts__"] = b.args[0].id
             info = _pack_info(s.value, env)
             if info and info[0] == "zeros":
                 enc.storage_var = s.targets[0].id
@@ -564,6 +571,8 @@ def extract_encoder(repo: Repo, rel="cell.py", qual="Cell._to_buffer") -> Encode
                     kb.type_expr = "|".join(types)
                     kb.type_conds += [_subst(x.test, local_env) for x in ast.walk(b) if isinstance(x, ast.If) and any(
                         isinstance(y, ast.Assign) and U(y.targets[0]) == type_var for y in ast.walk(x))]
+        if enc.header.get("__length_counts__") == payload_var and kb.payload_width is not None:
+            kb.length_add += kb.payload_width
         enc.kinds.append(kb)
         if len(node.orelse) == 1 and isinstance(node.orelse[0], ast.If):
             node = node.orelse[0]
